@@ -24,7 +24,13 @@ func VerifHarness_OpCallAlias() {
 	mem := verifBytes("mem", 64, 64)
 	sc := verifScope(self, mem)
 	target := verifAddr("target")
-	verifAssume(target[0] != 0)
+	identity := verifBool("target.identity")
+	if identity {
+		// the identity precompile hands the calldata back as return data
+		target = common.BytesToAddress([]byte{4})
+	} else {
+		verifAssume(target[0] != 0)
+	}
 	inOff, retOff := verifU64("inoff"), verifU64("retoff")
 	verifAssume(inOff <= 32 && retOff <= 32)
 	verifAssume(inOff%8 == 0 && retOff%8 == 0) // overlapping, adjacent and disjoint placements
@@ -51,11 +57,18 @@ func VerifHarness_OpCallAlias() {
 	_, err := opCall(verifCtx, &pc, env.interp, sc)
 	verifReach("returned")
 	verifAssert(err == nil, "the handler itself does not fail")
-	// a later store of the program into the argument area
-	later := verifBytes("later", 32, 32)
-	sc.Memory.Set(inOffC, 32, later)
 	node := evm.tracer.CallTree().FindCall(idx)
 	verifAssert(node != nil, "C08: the call attempt is recorded")
+	retAtReturn := common.CopyBytes(node.Ret)
+	// later stores of the program into the argument area and the return area
+	later := verifBytes("later", 32, 32)
+	sc.Memory.Set(inOffC, 32, later)
+	sc.Memory.Set(retOffC, 32, verifBytes("later2", 32, 32))
+	verifAssert(verifBytesEq(node.Ret, retAtReturn), "C08: recorded return data is not altered by later memory writes")
+	if identity {
+		verifReach("identity")
+		verifAssert(verifBytesEq(node.Ret, snapshot), "C08: recorded return data is what was handed back")
+	}
 	if ran == 1 {
 		verifReach("ran")
 	}
